@@ -23,6 +23,7 @@ ASSUMPTIONS = {
 # Verus units: name -> python module providing unit()
 VERUS_UNITS = {
     'client_table': 'contracts.client_table',
+    'client': 'contracts.client',
 }
 
 PROPS = {}
